@@ -597,6 +597,9 @@ func (e *SpecEnv) evalCall(x *ast.CallExpr) Val {
 		vc.ghostSorts[hn] = hs
 		made := sel(vc.heapTerm(e.st, hn, hs), v.L[iObj])
 		return Val{T: types.Typ[types.Int], L: []string{ite(eq(v.L[iMt], bvLit(64, rvSliceV)), made, vc.rvLoad(e.st, "rvLen", sBV64, v.L[iObj], cellKey(v)))}}
+	case "govcRvisnil":
+		v := e.eval(x.Args[0])
+		return Val{T: types.Typ[types.Bool], L: []string{not(eq(vc.rvLoad(e.st, "rvNilF", sBV64, v.L[iObj], cellKey(v)), bvLit(64, 0)))}}
 	case "govcRvflt":
 		v := e.eval(x.Args[0])
 		return Val{T: types.Typ[types.Float64], L: []string{vc.rvLoad(e.st, "rvFlt", sF64, v.L[iObj], cellKey(v))}}
